@@ -293,6 +293,24 @@ def check_c(ck, repo):
         for w in sites:
             for r in w.roots:
                 by_param.setdefault(r, []).append(w)
+        # objects held in hyper-parameters must not be mutated on a fit/predict path
+        hp = hyper_params(repo, ci)
+        for root, ws in sorted(by_param.items()):
+            if root.startswith("self.") and root[5:] in hp:
+                attr = root[5:]
+                if attr in ("random_state",):
+                    continue  # a generator instance given as random_state is consumed by design (scikit-learn convention)
+                if D_EXEMPT.get((ci.name, attr)) or (fi.cls is not None and D_EXEMPT.get((fi.cls.name, attr))) or B_EXEMPT.get((ci.name, attr)):
+                    continue
+                if fi.name in ("__init__", "set_params"):
+                    continue
+                w = ws[0]
+                ck.violated(
+                    "C02.b",
+                    fi,
+                    w.node,
+                    f"{ci.name}.{fi.name}: the object held in hyper-parameter '{attr}' is modified in place ({w.how}{' -> ' + w.via if w.via else ''}): get_params(deep=True) changes and the caller's object is altered",
+                )
         for p in params:
             n += 1
             ws = by_param.get(p)
@@ -570,6 +588,8 @@ WITNESSES = [
     {"name": "piecewise-no-clone-binner", "file": _PE, "rule": "C02.d", "old": "        binner = clone(self.binner)\n", "new": "        binner = self.binner\n"},
     {"name": "piecewise-no-clone-estimators", "file": _PE, "rule": "C02.d", "old": "estimators = [clone(self.estimator) for i in self.mapping_]", "new": "estimators = [self.estimator for i in self.mapping_]"},
     {"name": "ttr-no-clone", "file": _TP, "rule": "C02.d", "old": "            self.regressor_ = clone(self.regressor)\n", "new": "            self.regressor_ = self.regressor\n"},
+    {"name": "tsne-mutates-transformer-param", "file": "mlinsights/mlmodel/predictable_tsne.py", "rule": "C02.b", "old": "        self.transformer_ = clone(self.transformer)\n", "new": "        self.transformer.set_params(perplexity=5)\n        self.transformer_ = clone(self.transformer)\n"},
+    {"name": "tsdiff-view-of-y-written", "file": "mlinsights/timeseries/preprocessing.py", "rule": "C02.c", "old": "        self.y_ = y[: self.degree].copy()\n", "new": "        self.y_ = numpy.asarray(y[: self.degree])\n"},
     {"name": "permutation-fit-no-return", "file": "mlinsights/mlmodel/sklearn_transform_inv_fct.py", "rule": "C02.a", "old": "        self.permutation_ = perm\n        return self\n", "new": "        self.permutation_ = perm\n"},
     {"name": "interval-fit-returns-list", "file": _IR, "rule": "C02.a", "old": "            for i in loop\n        )\n\n        return self\n", "new": "            for i in loop\n        )\n\n        return self.estimators_\n"},
 ]
